@@ -73,6 +73,11 @@ func (e *c02Env) expectedVarying(spec c02MonSpec) []int {
 }
 
 func (e *c02Env) start(m *c02Mon) {
+	if m.spec.nsSel {
+		e.cl.mu.Lock()
+		e.cl.nsInfs++
+		e.cl.mu.Unlock()
+	}
 	m.mgr.StartMonitor(m.id)
 	e.c.Op(fmt.Sprintf("start %d", m.spec.id), "ok")
 	e.cl.waitWatches(m.mgr.GetMonitor(m.id), m.spec, e.expectedVarying(m.spec))
@@ -273,6 +278,7 @@ func (h *c02Hist) seedWorld(kind int) {
 }
 
 func c02MonitorCase(c *Case, rng *Rng, spec c02MonSpec, withGap bool, nops int) {
+	rng = NewRng(rng.U64()) // the lib derives neighbouring cases from shifted copies of one stream
 	kem.DefaultSyncTime = time.Millisecond
 	e := &c02Env{c: c, cl: newC02Cluster(c.Idx)}
 	defer e.setActive(nil)
@@ -421,6 +427,7 @@ func runC02(r *Run) {
 	}
 	n := r.N(140, 1500)
 	r.Cases(100, n, 0, func(c *Case, rng *Rng) {
+		rng = NewRng(rng.U64() ^ 0x5bd1e995)
 		spec := c02RandSpec(rng, 1)
 		c02MonitorCase(c, rng, spec, rng.Chance(25), rng.Range(3, 8))
 	})
